@@ -41,7 +41,9 @@ Trap2(f, v, S) ==      \* sum over consecutive members of S (S is an interval of
 Rms2x2(f, v, lo2, hi2) ==
     LET a == Max(2 * f[1], lo2)  b == Min(2 * f[Len(f)], hi2) IN
     IF a >= b THEN 0 ELSE Trap2(f, v, Inside(f, a, b))
-RmsInit == \E f \in Grids : \E lo2 \in 0..18 : \E hi2 \in 0..18 : lo2 <= hi2 /\ c = [f |-> f, v |-> Asd2(Len(f)), lo2 |-> lo2, hi2 |-> hi2]
+Asd2z(n) == [i \in 1..n |-> (i * 3) % 4]                        \* a spectrum with exact zeros (notches, band-limited data): zeros are grid points too
+RmsInit == \E f \in Grids : \E lo2 \in 0..18 : \E hi2 \in 0..18 : \E v \in {Asd2(Len(f)), Asd2z(Len(f))} :
+              lo2 <= hi2 /\ c = [f |-> f, v |-> v, lo2 |-> lo2, hi2 |-> hi2]
 
 Additive ==       \* adjacent bands split at a grid point add up in power
     Part = "rms" => \A m \in 1..Len(c.f) :
